@@ -4,7 +4,6 @@ pub mod input_attr;
 mod out_trait;
 
 use input_attr::EntraitTraitAttr;
-use proc_macro2::Span;
 
 use crate::analyze_generics::TraitFn;
 use crate::entrait_trait::input_attr::ImplTrait;
@@ -301,7 +300,7 @@ fn gen_delegation_method<'s>(
             let plus_sync = if contains_async.0 {
                 Some(TokenPair(
                     syn::token::Plus::default(),
-                    syn::Ident::new("Sync", Span::call_site()),
+                    generics::core_marker("Sync"),
                 ))
             } else {
                 None
@@ -537,14 +536,14 @@ impl ImplWhereClause<'_, '_> {
     fn plus_send(&self) -> TokenPair<impl ToTokens, impl ToTokens> {
         TokenPair(
             syn::token::Plus(self.span),
-            syn::Ident::new("Send", self.span),
+            generics::core_marker("Send"),
         )
     }
 
     fn plus_sync(&self) -> TokenPair<impl ToTokens, impl ToTokens> {
         TokenPair(
             syn::token::Plus(self.span),
-            syn::Ident::new("Sync", self.span),
+            generics::core_marker("Sync"),
         )
     }
 }
